@@ -531,7 +531,7 @@ func runC18(c *Ctx) {
 	for _, s := range c18Nasty {
 		escCase("esc-fixed", s)
 	}
-	for i := 0; i < c.Budget(300, 20000); i++ {
+	for i := 0; i < c.Budget(300, 5000); i++ {
 		escCase("esc-random", c18Name(r, true)+c18Str(r, true))
 	}
 
@@ -549,13 +549,13 @@ func runC18(c *Ctx) {
 		g, a, cfg = c18Witness("f", "di\"r/fi\"le.go")
 		dotCase("finding-F26", g, a, cfg)
 	}
-	for i := 0; i < c.Budget(450, 30000); i++ {
+	for i := 0; i < c.Budget(450, 6000); i++ {
 		meta := !r.P(1, 5)
 		g, a, cfg := c18SynthGraph(r, meta, !r.P(1, 25))
 		dotCase("dot-synth", g, a, cfg)
 	}
 	grans := []string{"functions", "lines", "files", "addresses", "filefunctions"}
-	for i := 0; i < c.Budget(350, 30000); i++ {
+	for i := 0; i < c.Budget(350, 5000); i++ {
 		po := c18POpts{meta: !r.P(1, 5), fileMeta: r.P(1, 25), unitMeta: r.P(1, 25), diff: r.P(1, 3)}
 		p := c18Profile(r, po)
 		ro := c18ROpts{callTree: r.P(1, 3), dropNeg: r.P(1, 4), trim: r.P(1, 3), gran: PickS(r, grans), nodeCount: 1 + r.Intn(3)}
@@ -583,7 +583,7 @@ func runC18(c *Ctx) {
 		p = c18CGWitness("callee", 0x3000, 0x3000, 0x1000)
 		c18CGCase(c, "finding-F11", p, c18ROpts{gran: "addresses"})
 	}
-	for i := 0; i < c.Budget(500, 30000); i++ {
+	for i := 0; i < c.Budget(500, 6000); i++ {
 		c18NoNL = !r.P(1, 12)
 		po := c18POpts{meta: !r.P(1, 5), fileMeta: r.P(1, 2), unitMeta: r.P(1, 6), diff: r.P(1, 5)}
 		p := c18Profile(r, po)
